@@ -241,7 +241,7 @@ fn main() {
             ght::c07(&mut ctx, &w);
         }
         "C08" => {
-            ctx.rule = "histories of insert / merge(other trie) / contains / partial_cmp+eq against another trie / prefix_iter (every prefix length the shape accepts) / find_containing_leaf on four trie shapes over three u8 columns with set storage, counted (multiset) storage for the non-lattice operations, and the deep-join bimorphism of two tries; oracle: BTreeSet<[u8;3]> (multiset for counted storage), subset order for comparisons (a panic is a violation), filter-by-prefix, relational join; all pairs of tries over a 4-row domain + random histories; non-trivial = a comparison of incomparable tries with ≥2 distinct heads".into();
+            ctx.rule = "histories of insert / merge(other trie) / contains / partial_cmp+eq against another trie / prefix_iter (every prefix length the shape accepts) / find_containing_leaf on four trie shapes over three u8 columns with set storage, counted (multiset) storage for the non-lattice operations, the deep-join bimorphism of two tries, and COLT force/force_drain of a leaf; oracle: BTreeSet<[u8;3]> (multiset for counted storage), subset order for comparisons (a panic is a violation), filter-by-prefix, relational join; all pairs of tries over a 4-row domain + random histories; non-trivial = a comparison of incomparable tries with ≥2 distinct heads".into();
             ctx.floor = 200;
             ght::c08(&mut ctx, &w);
         }
